@@ -36,6 +36,14 @@ func main() {
 	t0 := time.Now()
 	n := mutfam.BuildCorpus(c.Thorough())
 	fmt.Printf("corpus: %d items in %.1fs\n", n, time.Since(t0).Seconds())
+	// the cheap, complete stages first (all short byte strings, all header prefixes), then the mutants: a
+	// deadline cuts the later mutants of every item, never a whole stage
+	t1 := time.Now()
+	small := smallScope(c)
+	fmt.Printf("small scope: %d inputs in %.1fs\n", small, time.Since(t1).Seconds())
+	t1 = time.Now()
+	hdr := headers(c)
+	fmt.Printf("header prefixes: %d in %.1fs\n", hdr, time.Since(t1).Seconds())
 	fam := iso.Lookup("c04")
 	st, err := iso.Run(fam, 768<<20, 120*time.Second, c.Deadline(), mutfam.Describe)
 	if err != nil {
@@ -54,12 +62,6 @@ func main() {
 		c.Broken("isolated executor: %v", err)
 	}
 	report(c, deep)
-	t1 := time.Now()
-	small := smallScope(c)
-	fmt.Printf("small scope: %d inputs in %.1fs\n", small, time.Since(t1).Seconds())
-	t1 = time.Now()
-	hdr := headers(c)
-	fmt.Printf("header prefixes: %d in %.1fs\n", hdr, time.Since(t1).Seconds())
 	c.Sample(mutfam.Describe(0, 0))
 	c.Sample(mutfam.Describe(n/2, 7))
 	total := st.Cases + deep.Cases + small + hdr
@@ -69,7 +71,7 @@ func main() {
 	c.Set("mutants_run", st.Cases)
 	c.Set("killed_by_allocation_limit", st.AllocKills+deep.AllocKills)
 	c.Set("skipped_declared_body_over_1MiB", iso.Skipped)
-	c.Set("stopped_by_case_budget_250ms", iso.SlowKills)
+	c.Set("stopped_by_case_budget_400ms", iso.SlowKills)
 	c.Set("deep_nesting_cases", deep.Cases)
 	c.Set("small_scope_inputs", small)
 	c.Set("header_prefixes", hdr)
